@@ -180,6 +180,14 @@ def small_hierarchy(r, for_evaluate=False):
         eivs, elabs = one(etot, 1)
     else:
         eivs, elabs = one(etot)
+    if r.random() < 0.12:
+        # a top layer ending one ulp early (spans are validated with allclose):
+        # the frame grid must still be taken over all layers
+        which = r.choice(["both", "both", "ref", "est"])
+        if which in ("both", "ref"):
+            tasks._ulp_top(rivs)
+        if which in ("both", "est"):
+            tasks._ulp_top(eivs)
     return rivs, rlabs, eivs, elabs, fs
 
 
